@@ -72,7 +72,7 @@ func runMrCase(c mrCase) (res mrRes) {
 		go func() { wg.Wait(); close(fin) }()
 		select {
 		case <-fin:
-		case <-time.After(3 * time.Second):
+		case <-time.After(vSlack(3 * time.Second)):
 			res.Note += " readers left behind"
 		}
 	}()
@@ -100,7 +100,7 @@ func runMrCase(c mrCase) (res mrRes) {
 	}
 	atStream := -1
 	settle := func(ph *mrPhase) bool {
-		deadline := time.Now().Add(15 * time.Second)
+		deadline := time.Now().Add(vSlack(15 * time.Second))
 		parked := make([]bool, c.K)
 		for {
 		drainCh:
@@ -192,7 +192,7 @@ func runMrCase(c mrCase) (res mrRes) {
 			ph = mrPhase{Op: "G", T: atStream}
 			st.permits <- struct{}{}
 			// the reader in the stream leaves it: wait until it has taken the permit
-			deadline := time.Now().Add(10 * time.Second)
+			deadline := time.Now().Add(vSlack(10 * time.Second))
 			for len(st.permits) > 0 && time.Now().Before(deadline) {
 				time.Sleep(10 * time.Microsecond)
 			}
@@ -326,7 +326,7 @@ func runMrStress(c mrStressCase) (res mrStressRes) {
 		st.feed(vmsg{D: hex.EncodeToString(d), E: -1})
 	}
 	// wait until everything fed has been handed out, then end the stream
-	deadline := time.Now().Add(10 * time.Second)
+	deadline := time.Now().Add(vSlack(10 * time.Second))
 	for time.Now().Before(deadline) {
 		mu.Lock()
 		g, dead := res.Got, res.Panics
@@ -341,7 +341,7 @@ func runMrStress(c mrStressCase) (res mrStressRes) {
 	go func() { wg.Wait(); close(fin) }()
 	select {
 	case <-fin:
-	case <-time.After(5 * time.Second):
+	case <-time.After(vSlack(5 * time.Second)):
 		res.Hung = true
 	}
 	return
